@@ -612,6 +612,12 @@ func Gen(w *bufio.Writer, seed uint64, tier string) {
 			}
 		}
 	}
+	// synthetic Debian packages with control members larger than the pipe/bufio buffers on signdeb's path
+	for _, v := range debVariants {
+		for _, en := range []string{"sign:deb", "verify:deb", "issigned:deb", "transform:deb"} {
+			e.always(fmt.Sprintf("C11 ep %s deb:%s -", en, v))
+		}
+	}
 	for _, l := range LibEntries {
 		for _, fam := range families {
 			e.always(fmt.Sprintf("C11 ep lib:%s %s -", l, fam.bases[0]))
@@ -707,6 +713,9 @@ func genServer(e *emitter, r *hx.Rng, thorough bool) {
 	binary.LittleEndian.PutUint32(img2[p2+24+36:], 0)
 	e.always("C11 srv appx appxpe:" + hex.EncodeToString(img2) + " -")
 	e.always("C11 srv appx appxpe:" + hex.EncodeToString(img) + " -")
+	for _, v := range []string{"badgz", "zstctl", "tarerr", "bigctl"} {
+		e.always("C11 srv deb deb:" + v + " -")
+	}
 	for _, fam := range families {
 		if !canSign[fam.typ] {
 			continue
@@ -740,7 +749,10 @@ func MkBases(dir string) error {
 		return err
 	}
 	scratchDir = dir
-	type job struct{ typ, fx, out, key string; flags map[string]string }
+	type job struct {
+		typ, fx, out, key string
+		flags             map[string]string
+	}
 	jobs := []job{
 		{"pe-coff", "WindowsFormsApplication1.exe", "signed-pe.exe", "rsa", nil},
 		{"pe-coff", "ClassLibrary1.dll", "signed-pe-ph.dll", "p256", map[string]string{"page-hashes": "true"}},
